@@ -29,7 +29,7 @@ ASSUMPTIONS = [
 ]
 
 EXT = ["colon_fence", "deflist", "fieldlist", "strikethrough", "substitution", "attrs_inline", "attrs_block", "html_image", "html_admonition", "dollarmath", "tasklist"]
-SETTINGS = {"myst_enable_extensions": EXT, "myst_heading_anchors": 3}
+SETTINGS = {"myst_enable_extensions": EXT, "myst_heading_anchors": 3, "myst_substitutions": {"fnsub": "see[^a]", "tgsub": "[span]{.c}"}}
 
 
 def check_tree(doc, warn, post, sphinx_stage=False):
@@ -104,7 +104,8 @@ FR = [
         "<img src=\"a.png\" name=\"foo2\">\n<p>not convertible</p>\n\n[link](#foo2)\n", "<div class=\"admonition\" name=\"adm2\">\n<p>x[^a]</p>\n</div>\n<hr>\n\n[l](#adm2)\n",
         "```{admonition} Title {nosuchrole}`x`\nbody\n```\n", "```{rubric} R {nosuchrole}`y`\n```\n", "```{topic} Topic {nosuchrole}`z`\nbody\n```\n",
     "```{table} Cap {nosuchrole}`t`\n\n|a|\n|-|\n|b|\n```\n", "```{epigraph}\nq\n\n-- attr {nosuchrole}`a`\n```\n",
-        "### H3 skipped\n", "#### H4 skipped\n\ntext\n", "{#h}\npara with the id of a heading\n", "{#h-1}\n- list with the id of the second H\n", "![a](b){#h3-skipped}\n",
+        "{{fnsub}} and again {{fnsub}}\n", "- {{fnsub}}\n- {{tgsub}} {{fnsub}}\n",
+    "### H3 skipped\n", "#### H4 skipped\n\ntext\n", "{#h}\npara with the id of a heading\n", "{#h-1}\n- list with the id of the second H\n", "![a](b){#h3-skipped}\n",
     "(t2)=\n## Titled target\n", "[](#t2) and [](#t2) and <project:#t2>\n", "[](#fig1) [](#fig1)\n", "[](#h) [](#h)\n", "x[^a] y[^a]\n",
 ]
 
